@@ -283,12 +283,44 @@ def drv(binary, sub, cases, args=(), timeout=600, env=None):
     return obs, p.returncode, p.stderr
 
 
-def pmap(fn, items, nproc=None, chunksize=1):
-    """Parallel map with fork-based pool; results in order."""
+class _Safe:
+    """Picklable wrapper: a worker exception becomes a FailedCase instead of killing the whole campaign."""
+
+    def __init__(self, fn):
+        self.fn = fn
+
+    def __call__(self, x):
+        try:
+            return self.fn(x)
+        except Exception:
+            import traceback
+            return FailedCase(traceback.format_exc()[-1500:])
+
+
+class FailedCase:
+    def __init__(self, tb):
+        self.tb = tb
+
+
+def pmap(fn, items, nproc=None, chunksize=1, chk=None, with_items=False):
+    """Parallel map with fork-based pool; results in order.  With chk: a harness exception in one case is recorded as
+    inconclusive (exit 3 unless a violation is found elsewhere) and that case is dropped from the results."""
     import multiprocessing as mp
     nproc = nproc or NPROC
+    f = _Safe(fn) if chk is not None else fn
     if nproc <= 1 or len(items) <= 1:
-        return [fn(x) for x in items]
-    ctx = mp.get_context("fork")
-    with ctx.Pool(nproc) as pool:
-        return pool.map(fn, items, chunksize=chunksize)
+        res = [f(x) for x in items]
+    else:
+        ctx = mp.get_context("fork")
+        with ctx.Pool(nproc) as pool:
+            res = pool.map(f, items, chunksize=chunksize)
+    if chk is not None:
+        ok_items, ok_res = [], []
+        for it, r in zip(items, res):
+            if isinstance(r, FailedCase):
+                chk.inconc("harness exception in one case: " + r.tb[-400:])
+            else:
+                ok_items.append(it)
+                ok_res.append(r)
+        return (ok_items, ok_res) if with_items else ok_res
+    return res
